@@ -698,3 +698,41 @@ def rule_reg_only_instances(db: ProgramDB) -> List[Instance]:
                         f"let(Shape) ranges over an Other", line=al.lineno))
     return out
 
+
+# ---------------------------------------------------------------------------------- REG-SNAPSHOT
+def rule_reg_snapshot(db: ProgramDB) -> List[Instance]:
+    """'The instances that have been constructed SO FAR': what a variable without a domain ranges over is what the stores of the class
+    and of its subclasses hold when the registry is read - all of them at that moment.  The evaluation that reads it also writes it
+    (a rule head constructs instances): a store whose turn comes after the first value was handed out would contain what the same
+    evaluation has built meanwhile, and the rule would feed on its own output.  Path rule in the function that walks the stores:
+    once a value has been yielded, no store is read any more."""
+    out = []
+    y = db.fn("cache_data:yield_class_values_from_cache")
+    cfg = CFG(y)
+
+    def reads_store(nd):
+        if nd.ast is None:
+            return False
+        scan = nd.ast.iter if nd.kind == "for" else nd.ast
+        return any(isinstance(c, ast.Call) and call_attr(c) == "retrieve" for c in ast.walk(scan))
+    ys = [nd for nd in cfg.nodes if nd.has_yield]
+    rs = [nd for nd in cfg.nodes if reads_store(nd)]
+    if not ys or not rs:
+        raise AnalysisError("yield_class_values_from_cache: the reads of the stores / the yields were not found")
+    bad = None
+    for yn in ys:
+        if reads_store(yn) and any(e.dst == yn.id or cfg.find_path(e.dst, lambda nd, yn=yn: nd.id == yn.id, kinds=("n",)) is not None
+                                   for e in cfg.succ[yn.id] if e.kind == "n"):
+            bad = (yn, yn)           # the statement that hands values out reads the (next) store itself, in a loop
+            break
+        p = cfg.find_path(yn.id, lambda nd: reads_store(nd), kinds=("n",))
+        if p is not None:
+            bad = (yn, cfg.nodes[p[-1].dst])
+            break
+    out.append(inst("REG-SNAPSHOT", VIOLATION if bad else HOLDS, y, "yield_class_values_from_cache[all stores are read before the first value is handed out]",
+                    "the stores are read first, then their contents are handed out" if not bad else
+                    f"after `{bad[0].src()[:50]}` has handed out a value, `{bad[1].src()[:50]}` reads a store: the store of a subclass whose turn comes later holds what the "
+                    f"evaluation built in between - infer(entity(FollowUp(name=u.name, level=u.lower, origin=u), u.level > 1)) with u = let(Ticket) builds a FollowUp from "
+                    f"a FollowUp of the same run (3 instances for 2 satisfying assignments)", line=bad[0].lineno if bad else y.lineno))
+    return out
+
